@@ -704,6 +704,12 @@ def _error_expectation(case):
             return {2, 65}, False
         return {65}, True
     if err == "constraint_mal":
+        if any(c.get("mal") == "bad_pred_arg" for c in case["constraints"]):
+            # a wrong predicate *argument* parses; it is only noticed when the predicate is evaluated.  If the
+            # input is rejected first (exit 1) or the command is not `check`, both 1 and 65 honour the contract.
+            inp = case.get("input") or {}
+            if cmd != "check" or inp.get("cls") not in ("valid", "sem_invalid", "json_tree"):
+                return {1, 65}, False
         return {65}, True
     if err == "binary":
         return ({65}, True) if case["binary"] != "input" else ({1, 65}, False)
